@@ -287,14 +287,15 @@ func equalLines(a, b []string) bool {
 // ---------- the differential run ----------
 
 type runner struct {
-	comp    Component
-	drv     *Driver
-	sum     *Summary
-	seen    map[string]bool
-	maxMis  int
-	wantKey string
-	keyed   map[string]bool
-	unkeyed int
+	comp          Component
+	drv           *Driver
+	sum           *Summary
+	seen          map[string]bool
+	maxMis        int
+	wantKey       string
+	keyed         map[string]bool
+	unkeyed       int
+	unkeyedOracle int
 }
 
 func (r *runner) modelOutLines(lines []string) []string {
@@ -417,11 +418,19 @@ func (r *runner) record(c Case, kind, why string) {
 			r.keyed[r.wantKey] = true
 		}
 	}
-	if r.wantKey == "" && r.unkeyed >= r.maxMis {
-		return
-	}
+	// separate budgets: correspondence mismatches must not crowd out failing inputs found by the property oracle
 	if r.wantKey == "" {
-		r.unkeyed++
+		if kind == "oracle" {
+			if r.unkeyedOracle >= r.maxMis {
+				return
+			}
+			r.unkeyedOracle++
+		} else {
+			if r.unkeyed >= r.maxMis {
+				return
+			}
+			r.unkeyed++
+		}
 	}
 	small := r.shrink(c, kind)
 	if !r.fails(small, kind) {
